@@ -376,7 +376,7 @@ pub fn panic_signature(msg: &str, loc: &str) -> String {
     let file = file.split(':').next().unwrap_or(file);
     let mut m = String::new();
     let mut last_hash = false;
-    for c in msg.chars().take(60) {
+    for c in msg.chars() {
         if c.is_ascii_digit() {
             if !last_hash {
                 m.push('#');
@@ -387,6 +387,8 @@ pub fn panic_signature(msg: &str, loc: &str) -> String {
             last_hash = false;
         }
     }
+    // cut the *normalised* text, so that numbers of different width do not move the cut
+    let m: String = m.chars().take(52).collect();
     format!("panic:{file}:{m}")
 }
 
